@@ -30,6 +30,8 @@ RECURSIVE Close(_)
 Close(X) ==
   LET W == X \cup UNION {{<<x[1], ed[2]>> : ed \in {d \in ProgramOf(x[1]).eps : d[1] = x[2]}} : x \in X}
              \cup {<<x[1], 1>> : x \in {y \in X : y[2] = EndOf(y[1])}}       \* the entry point is called again
+             \* a channel receive is a step of the program that the mutex shim does not record
+             \cup {<<x[1], x[2] + 1>> : x \in {y \in X : y[2] < EndOf(y[1]) /\ ProgramOf(y[1]).ops[y[2]].k = "recv"}}
   IN IF W = X THEN X ELSE Close(W)
 
 Start(r) == Close({<<p, 1>> : p \in Cands(r.entry)})
